@@ -402,12 +402,42 @@ func (s *Script) ParseInscription() (*InscriptionArgs, error) {
 	// always needs to be last and the previous fields can be
 	// reordered - this is based on the original ordinals
 	// indexer: https://github.com/casey/ord
+	data, contentType := p[11], p[9]
+	if isOpZeroPart(*s, p, 11) {
+		data = []byte{}
+	}
+	if isOpZeroPart(*s, p, 9) {
+		contentType = []byte{}
+	}
 	return &InscriptionArgs{
 		LockingScriptPrefix: s.Slice(0, 25),
-		Data:                p[11],
-		ContentType:         string(p[9]),
+		Data:                data,
+		ContentType:         string(contentType),
 		// EnrichedArgs: , // TODO:
 	}, nil
+}
+
+// isOpZeroPart returns true if the part at index idx of the script b, which
+// decodes to parts, is the opcode OP_0. OP_0 pushes an empty item, which is how
+// empty data is encoded, but `DecodeParts()` returns it as the part 0x00, the
+// same as it does for a push of the one byte 0x00.
+func isOpZeroPart(b []byte, parts [][]byte, idx int) bool {
+	pos := 0
+	for _, part := range parts[:idx] {
+		switch op := b[pos]; {
+		case op >= OpDATA1 && op <= OpDATA75:
+			pos += 1 + len(part)
+		case op == OpPUSHDATA1:
+			pos += 2 + len(part)
+		case op == OpPUSHDATA2:
+			pos += 3 + len(part)
+		case op == OpPUSHDATA4:
+			pos += 5 + len(part)
+		default:
+			pos++
+		}
+	}
+	return b[pos] == OpZERO
 }
 
 // Slice a script to get back a subset of that script.
